@@ -53,7 +53,12 @@ func buildAgent(c *caseSpec, a *agentSpec, rec *recorder) (ag *react.Agent, err 
 	}
 	if c.Modifier != 0 {
 		kind := c.Modifier
-		cfg.MessageModifier = func(_ context.Context, in []*schema.Message) []*schema.Message {
+		cfg.MessageModifier = func(ctx context.Context, in []*schema.Message) []*schema.Message {
+			// the modifier is part of the run as well: it records what its context carries
+			rr, _ := rec.recOf(ctx)
+			rr.mu.Lock()
+			rr.modifier = append(rr.modifier, checkerObs{Token: ctx.Value(tokenKey{}), CtorOnly: ctx.Value(ctorOnlyKey{}) != nil, Err: ctx.Err(), HasEnv: envOf(ctx) != nil})
+			rr.mu.Unlock()
 			return applyModifier(kind, in)
 		}
 	}
@@ -268,7 +273,7 @@ func TestCheck(t *testing.T) {
 	rep.Require("overlap_groups_judged", 10)
 	rep.Require("overlap_gate_switches", 50)
 
-	n := int64(cfg.Pick(1200, 5000)) // cases per shard
+	n := int64(cfg.Pick(1200, 10000)) // cases per shard
 	rep.Cases(n, func(idx int64, rng *mon.Rand) {
 		if hangsSeen >= 8 {
 			// every hang leaves goroutines behind and costs several quiescence proofs; the
@@ -276,6 +281,9 @@ func TestCheck(t *testing.T) {
 			rep.Count("cases_skipped_after_8_hangs", 1)
 			return
 		}
+		t0 := time.Now()
+		kind := "classic"
+		defer func() { rep.Count("wall_ms_"+kind, time.Since(t0).Milliseconds()) }() // evidence only
 		var c *caseSpec
 		switch k := idx % 20; {
 		case k < 11:
@@ -290,7 +298,10 @@ func TestCheck(t *testing.T) {
 		if idx < 2 || (idx >= 11 && idx <= 19 && idx%2 == 1) {
 			rep.Sample(c)
 		}
-		rep.Count("cases_"+map[string]string{"": "classic"}[c.Kind]+c.Kind, 1)
+		if c.Kind != "" {
+			kind = c.Kind
+		}
+		rep.Count("cases_"+kind, 1)
 		if c.MaxStep == 0 {
 			rep.Count("cases_default_max_step", 1)
 		}
@@ -358,14 +369,15 @@ func reportRun(rep *mon.Reporter, c *caseSpec, a *agentSpec, sim simOut, rr *run
 		fs[0].Sig = "C18/return-directly/" + out.Mode + "/wrong-result-when-another-call-has-the-same-id"
 		suffix = ""
 	}
+	extra := 0 // findings that are reported with a signature of their own (no suffix)
 	for _, mc := range rr.calls {
 		if mc.Changed != nil {
-			fs = append(fs, finding{Sig: "C18/overlap/" + out.Mode + "/model-input-changed-during-model-call",
-				Detail: fmt.Sprintf("the messages handed to a model call were overwritten while the call was in progress\nat entry: %s\nlater:    %s", js(mc.Input), js(mc.Changed))})
+			extra++
+			rep.Violation("C18/overlap/"+out.Mode+"/model-input-changed-during-model-call",
+				fmt.Sprintf("agent %s/%s, run %s\nthe messages handed to a model call were overwritten while the call was in progress\nat entry: %s\nlater:    %s", a.Checker, a.Wiring, runName, js(mc.Input), js(mc.Changed)), w)
 			break
 		}
 	}
-	checkerFindings := 0
 	if a.Checker != "first-chunk" {
 		cf := judgeChecker(out.Mode, token, rr.checker)
 		if impl := checkerImplOf(c); len(cf) > 0 && (impl == "cancel-aware" || impl == "env-required") {
@@ -380,13 +392,29 @@ func reportRun(rep *mon.Reporter, c *caseSpec, a *agentSpec, sim simOut, rr *run
 		rep.Count("checker_impl_"+checkerImplOf(c), int64(len(rr.checker)))
 		if len(rr.checker) != len(rr.calls) {
 			rep.Count("checker_calls_not_one_per_model_call", 1)
+			if c.Kind == "overlap" {
+				// calls are attributed through the checker's context here: the output of every model call
+				// of this run is examined once, so a difference means the context of ANOTHER run was used
+				extra++
+				rep.Violation("C18/checker-context/"+out.Mode+"/context-of-another-run", fmt.Sprintf("agent %s/%s, run %s: the run made %d model call(s), but %d call(s) of the StreamToolCallChecker carried its context",
+					a.Checker, a.Wiring, runName, len(rr.calls), len(rr.checker)), w)
+			}
 		}
-		checkerFindings = len(cf)
+		extra += len(cf)
 	}
 	for _, f := range fs {
 		rep.Violation(f.Sig+suffix, fmt.Sprintf("agent %s/%s, run %s\n%s", a.Checker, a.Wiring, runName, f.Detail), w)
 	}
-	nf := len(fs) + checkerFindings
+	if c.Modifier != 0 {
+		mf := judgeChecker(out.Mode, token, rr.modifier)
+		for _, f := range mf {
+			sig := strings.Replace(f.Sig, "C18/checker-context/", "C18/modifier-context/", 1) + strings.TrimSuffix(suffix, "@rerun")
+			rep.Violation(sig, fmt.Sprintf("agent %s/%s (constructor context %q), run %s\n%s", a.Checker, a.Wiring, ctorKindOf(c), runName, strings.ReplaceAll(f.Detail, "StreamToolCallChecker", "MessageModifier")), w)
+		}
+		extra += len(mf)
+		rep.Count("modifier_calls_judged", int64(len(rr.modifier)))
+	}
+	nf := len(fs) + extra
 
 	// evidence
 	rep.Count("runs_"+out.Mode, 1)
@@ -517,6 +545,9 @@ func runAgent(rep *mon.Reporter, c *caseSpec, a *agentSpec, sim simOut) bool {
 		case ge != se:
 			rep.Violation("C18/generate-vs-stream/error-vs-result", fmt.Sprintf("agent %s/%s: Generate err=%v result=%s; Stream err=%v (%s) result=%s",
 				a.Checker, a.Wiring, firstG.Err, js(firstG.Final), firstS.Err, firstS.ErrWhere, js(firstS.Final)), w("G vs S"))
+		case !ge && !firstG.Final.equal(firstS.Final) && sim.Outcome == outDirect && sim.DupDirect:
+			rep.Violation("C18/return-directly/generate-vs-stream/differ-when-another-call-has-the-same-id", fmt.Sprintf("agent %s/%s: Generate %s\nconcat(Stream) %s\nexpected %s",
+				a.Checker, a.Wiring, js(firstG.Final), js(firstS.Final), js(sim.Final)), w("G vs S"))
 		case !ge && !firstG.Final.equal(firstS.Final):
 			rep.Violation("C18/generate-vs-stream/result-differs", fmt.Sprintf("agent %s/%s: Generate %s\nconcat(Stream) %s",
 				a.Checker, a.Wiring, js(firstG.Final), js(firstS.Final)), w("G vs S"))
@@ -576,6 +607,9 @@ func runOverlap(rep *mon.Reporter, c *caseSpec) bool {
 				return false
 			}
 			cancel()
+			if drainOrphan(rep, rec, c, a, w(name(i, "control"))) {
+				return false // the sequential workloads report it as well
+			}
 			if er.p != nil {
 				rep.Violation("C18/panic/"+modeName+"/"+er.p.FirstFrame("github.com/cloudwego/eino/"), er.p.Value+"\n"+er.p.Stack, w(name(i, "control")))
 				return false
@@ -615,8 +649,13 @@ func runOverlap(rep *mon.Reporter, c *caseSpec) bool {
 	for _, cancel := range cancels {
 		cancel()
 	}
+	// calls that reached the model, a tool or the checker without the context of their run
+	foreign := drainOrphan(rep, rec, c, a, w("overlapping runs"))
 	judged := 0
 	for i := range o.Runs {
+		if foreign {
+			break // what the runs did without their context is a consequence
+		}
 		if rs[i].p != nil {
 			rep.Violation("C18/panic/"+rs[i].out.Mode+"/"+rs[i].p.FirstFrame("github.com/cloudwego/eino/")+"@overlap", rs[i].p.Value+"\n"+rs[i].p.Stack, w(name(i, "overlapping")))
 			continue
@@ -625,16 +664,6 @@ func runOverlap(rep *mon.Reporter, c *caseSpec) bool {
 		judged++
 		rep.Count("overlap_runs_judged", 1)
 	}
-	// calls that reached the model, a tool or the checker without the context of their run
-	rec.orphan.mu.Lock()
-	if nm, nt := len(rec.orphan.calls), len(rec.orphan.tools); nm+nt > 0 {
-		rep.Violation("C18/overlap/run-context-not-handed-to-model-or-tool", fmt.Sprintf("%d model call(s) and %d tool invocation(s) got a context that does not carry the value put into the context of Generate/Stream", nm, nt), w("overlapping runs"))
-	}
-	for _, f := range judgeChecker("overlap", "", rec.orphan.checker) {
-		rep.Violation(f.Sig, fmt.Sprintf("agent %s/%s (checker implementation %q, constructor context %q), overlapping runs: the call cannot be attributed to any run\n%s", a.Checker, a.Wiring, checkerImplOf(c), ctorKindOf(c), f.Detail), w("overlapping runs"))
-	}
-	rep.Count("checker_calls_judged", int64(len(rec.orphan.checker)))
-	rec.orphan.mu.Unlock()
 
 	sc.mu.Lock()
 	tr := append([]event(nil), sc.trace...)
@@ -647,4 +676,29 @@ func runOverlap(rep *mon.Reporter, c *caseSpec) bool {
 	rep.Count("overlap_gate_switches", int64(sw))
 	rep.Distinct("interleaving", traceString(tr))
 	return judged == n && withRound >= 2 && sw >= 1
+}
+
+// drainOrphan reports what reached the model, a tool or the checker of an agent whose runs
+// are told apart by their context WITHOUT the context of any run, and forgets it. It
+// returns true if there was such a call.
+func drainOrphan(rep *mon.Reporter, rec *recorder, c *caseSpec, a *agentSpec, w witness) bool {
+	or := rec.orphan
+	or.mu.Lock()
+	defer or.mu.Unlock()
+	foreign := false
+	if nm, nt := len(or.calls), len(or.tools); nm+nt > 0 {
+		foreign = true
+		rep.Violation("C18/overlap/run-context-not-handed-to-model-or-tool", fmt.Sprintf("%d model call(s) and %d tool invocation(s) got a context that does not carry the value put into the context of Generate/Stream", nm, nt), w)
+	}
+	for _, f := range judgeChecker("overlap", "", or.checker) {
+		foreign = true
+		rep.Violation(f.Sig, fmt.Sprintf("agent %s/%s (checker implementation %q, constructor context %q): the call cannot be attributed to any run\n%s", a.Checker, a.Wiring, checkerImplOf(c), ctorKindOf(c), f.Detail), w)
+	}
+	for _, f := range judgeChecker("overlap", "", or.modifier) {
+		foreign = true
+		rep.Violation(strings.Replace(f.Sig, "C18/checker-context/", "C18/modifier-context/", 1), fmt.Sprintf("agent %s/%s (constructor context %q): the call cannot be attributed to any run\n%s", a.Checker, a.Wiring, ctorKindOf(c), strings.ReplaceAll(f.Detail, "StreamToolCallChecker", "MessageModifier")), w)
+	}
+	rep.Count("checker_calls_judged", int64(len(or.checker)))
+	or.calls, or.tools, or.checker, or.modifier = nil, nil, nil, nil
+	return foreign
 }
